@@ -907,7 +907,11 @@ func c13Work(c *engine.Ctx) {
 					// relative to the buffer: the same shapes at half the size
 					lens = map[string]string{"4,8,12": "2,4,6", "6,10,14": "3,5,7", "8,12": "4,6", "4,12": "2,6"}[lens]
 				}
-				c.Exec(pool, nil, map[string]string{"size": strconv.Itoa(size), "lens": lens, "chunk": strconv.Itoa(chunk), "depth": strconv.Itoa(c.Pick(10, 12))})
+				depth := c.Pick(10, 13)
+				if strings.Count(lens, ",") >= 2 {
+					depth = c.Pick(10, 11) // three token lengths: four operations to choose from at every step
+				}
+				c.Exec(pool, nil, map[string]string{"size": strconv.Itoa(size), "lens": lens, "chunk": strconv.Itoa(chunk), "depth": strconv.Itoa(depth)})
 				c.Count("exec", 1)
 				c.Count("distinct_nontrivial", 1)
 			}
@@ -945,7 +949,7 @@ func c13Finish(c *engine.Ctx, cov map[string]interface{}) string {
 func init() {
 	register(&engine.Check{
 		ID: "C13", Level: "model_checking",
-		Rule:        "per case (data prefix of abcdefghij or a multi-byte variant, initial size incl. 0 and the default constructor, reader failing at offset f or ending with EOF, start state = initial or after 1..4 iterations of the canonical token loop with/without Free): breadth-first search over all contract-respecting operation histories up to the depth bound × reader answers (fill / zero-length / 1 / 2 / all-but-one / error-or-EOF together with the last bytes) within the deviation bound, de-duplicated on a reflective state key; every step compared with a cursor over the complete data, the ledger of returned slices checked after every step; plus periodic streams for the memory clause and a token-level search of the buffer pool (all histories of ≤10 (12) operations (shift a token of one of 2-3 lengths / free the oldest token held) on a 4 kB stream for 2 buffer sizes × 8 length sets × 3 reader chunk sizes, de-duplicated on the structure of the private state; every token that is still held is compared after every operation). distinct_nontrivial = cases",
+		Rule:        "per case (data prefix of abcdefghij or a multi-byte variant, initial size incl. 0 and the default constructor, reader failing at offset f or ending with EOF, start state = initial or after 1..4 iterations of the canonical token loop with/without Free): breadth-first search over all contract-respecting operation histories up to the depth bound × reader answers (fill / zero-length / 1 / 2 / all-but-one / error-or-EOF together with the last bytes) within the deviation bound, de-duplicated on a reflective state key; every step compared with a cursor over the complete data, the ledger of returned slices checked after every step; plus periodic streams for the memory clause and a token-level search of the buffer pool (all histories of ≤10 (thorough: 13 with two token lengths, 11 with three) operations (shift a token of one of 2-3 lengths / free the oldest token held) on a 4 kB stream for 2 buffer sizes × 8 length sets × 3 reader chunk sizes, de-duplicated on the structure of the private state; every token that is still held is compared after every operation). distinct_nontrivial = cases",
 		Assumptions: []string{"contract: the position never moves past the end of the data or before start, at most what was shifted is freed; moves over bytes that were not peeked at are bounded deviations (quick: 1 per history at depth 7 with 2 reader deviations; thorough: 1 at depth 8 with 3 reader deviations and 2 at depth 7 with 2)", "a Lexeme() slice is held to the same lifetime rule as a Shift() slice (valid until bytes up to its end are freed)"},
 		Setup:       c13Setup, Work: c13Work, Finish: c13Finish,
 	})
